@@ -11,12 +11,13 @@ EXPLANATION = (
     "C09.a (sibling drivers, must-pass-through on the CFG of run_model): both driver loops advance the model only "
     "through the same statement (the 4-tuple assignment from self._perform_timestep()); on every path from a step to "
     "the function exit or to the next step the termination flag model_is_finished is tested, so a step count that lands "
-    "exactly on the last day reports completion and no step is taken on a finished model; the completion status is "
+    "exactly on the last day reports completion and no step is taken on a finished model - neither within a call nor by a later call (every "
+    "path from the function entry to a step passes such a test); the completion status is "
     "set to True only under a positive test (or after the while loop, whose exit condition is that test) and to False "
     "only after a negative one. C09.b (no hidden driver state): _initialize is reachable from run_model only under "
     "initialize_model; run_model / _perform_timestep contain no global / nonlocal statement and keep no state outside "
     "self.*; the only extra state of step mode (__steps_are_finished) is written only under process_outputs is True. "
-    "C09.c: get_simulation_results hands out the seasonal summary only when the model has finished. NOT decided: "
+    "C09.c: get_simulation_results hands out the seasonal summary (directly or through a local) only on paths through the 'model has finished' edge (edge removal). NOT decided: "
     "equality of the produced tables (follows from a+b by determinism of the step, C10).")
 
 
@@ -75,6 +76,15 @@ def run(chk, prog, tier):
             chk.violation("C09.a", fi.key, construct,
                           f"there is a path on which {what} after a step without testing model_is_finished: a run that ends exactly on its "
                           "last requested step is reported unfinished (or a finished model is stepped again)", loc=fi.loc(c))
+    # no step is taken on a model that has already terminated: every path from the entry to a step passes a test of the flag
+    for c in steps:
+        nid = flow.node_of(c)
+        construct = f"before the step at `{norm(cfg.nodes[nid].ast)[:50]}...`: termination flag tested since the function entry"
+        if cfg.paths_exist_avoiding(cfg.entry, nid, tests):
+            chk.violation("C09.a", fi.key, construct, "a call of run_model on a model that has already terminated reaches a step without testing "
+                          "model_is_finished: a step count that overshoots the end (in a later call) simulates the last day again", loc=fi.loc(c))
+        else:
+            chk.ok("C09.a", fi.key, construct)
     # completion status assignments
     nstat = 0
     for a in walk_no_nested(fi.node):
@@ -131,16 +141,34 @@ def run(chk, prog, tier):
     g = prog.func("aquacrop.core:AquaCropModel.get_simulation_results")
     chk.fn(g.key)
     gf = flow_of(g)
-    rets = [r for r in walk_no_nested(g.node) if isinstance(r, ast.Return) and r.value is not None
-            and any(isinstance(x, ast.Attribute) and x.attr == "final_stats" for x in ast.walk(r.value))]
+    def hands_out_summary(r):
+        if r.value is None:
+            return False
+        if any(isinstance(x, ast.Attribute) and x.attr == "final_stats" for x in ast.walk(r.value)):
+            return True
+        if isinstance(r.value, ast.Name):
+            for d in gf.defs_reaching(r.value.id, gf.stmt_node[id(r)]):
+                a = gf.cfg.nodes[d].ast if d >= 0 else None
+                if isinstance(a, ast.Assign) and any(isinstance(x, ast.Attribute) and x.attr == "final_stats" for x in ast.walk(a.value)):
+                    return True
+        return False
+    rets = [r for r in walk_no_nested(g.node) if isinstance(r, ast.Return) and hands_out_summary(r)]
     chk.floor("C09.c", len(rets), 1, "returns of the seasonal summary")
+    fin_edges = set()
+    for n in gf.cfg.live_nodes():
+        if n.kind == "test" and any(isinstance(x, ast.Attribute) and x.attr.endswith("has_model_finished") for x in ast.walk(n.ast)):
+            t = norm(n.ast)
+            if t.endswith("has_model_finished") or t.endswith("has_model_finished is True"):
+                fin_edges.add((n.id, True))
+            elif t.endswith("has_model_finished is False"):
+                fin_edges.add((n.id, False))
     for r in rets:
         nid = gf.stmt_node[id(r)]
-        deps = {(norm(gf.cfg.nodes[t].ast), l) for t, l in gf.cfg.transitive_control_deps(nid) if gf.cfg.nodes[t].kind == "test"}
-        if any(t.endswith("has_model_finished") and l is True for t, l in deps):
-            chk.ok("C09.c", g.key, norm(r), "only when the model has finished")
+        if fin_edges and not gf.cfg.reachable_without_edges(nid, fin_edges):
+            chk.ok("C09.c", g.key, norm(r), "reachable only through the 'model has finished' edge (edge removal)")
         else:
-            chk.violation("C09.c", g.key, norm(r), "the seasonal summary is handed out before the model has finished", loc=g.loc(r))
+            chk.violation("C09.c", g.key, norm(r), "the seasonal summary is handed out on a path that does not pass the 'model has finished' edge: a paused "
+                          "multi-season run reports a (partial) summary", loc=g.loc(r))
     chk.exhaustive = True
 
 
